@@ -33,6 +33,13 @@ CLAIMS = {
          "assumed: atomic step granularity (create/truncate, write, close, rename, remove), os.replace atomic, a kill leaves what was written (no power-loss model); "
          "crash states of sow_combos are composed from the per-call Sower clauses by the callback rule (meta-theorem), not by a crash contract on the core runner; "
          "shutil.rmtree order, dataset libraries' partial writes, check_bad and Sampler crops: bounded harness only"),
+ "C13": ("Discharged on the real is_case_missing (a location whose coordinates are absent - sel raises KeyError - is missing; otherwise the answer is "
+         "item(all(to_array(all(nulltest(sel(ds, setting)))))) for a Dataset and item(all(nulltest(sel))) for a DataArray, with nulltest = isnull or not-isfinite as "
+         "requested; an unknown method raises ValueError) and parse_into_cases (every returned element is {**case, **zip(keys, setting)} for a requested case and "
+         "combination at which is_case_missing holds (or no dataset was given), and every such requested location is returned: loop invariants over the case list and "
+         "the product). BOUNDED: replay/C13.py against an independent numpy oracle, including find_missing_cases and the find -> harvest -> find loop (quick tier).",
+         "assumed: xarray's sel / isnull / all / to_array / item semantics (named contracts), numpy.isfinite; find_missing_cases, result order and duplicate-freeness "
+         "are bounded only"),
  "C14": ("Discharged on the real auto_add_extension (string contract: a name containing a known extension is kept, otherwise the engine's extension is appended; the "
          "result always has one), save_ds (writes exactly one file, the one named auto_add_extension(name, engine), holding the dataset; for netCDF engines every "
          "None/True/False attribute becomes its string and nothing else changes, joblib/zarr keep attributes), load_ds (reads only that same name and returns what is "
